@@ -119,7 +119,7 @@ def run(pools, prop: str, tier: str, verif_seed: int, deadline, known) -> dict:
         done_n, bad_n, herr = 0, 0, 0
         for p, fu in pf:
             try:
-                r = fu.result(timeout=600)
+                r = pools.result_or_retry(fu, 1, lambda p=p: pools.submit_case(1, prop, w["seed"], p), timeout=600)
             except BaseException as e:  # noqa: BLE001
                 r = {"verdict": "harness_error", "error": str(e)}
             if r["verdict"] == "harness_error":
